@@ -12,7 +12,7 @@
      accepts / naccepted / nrejected / nverified   projections of the trace. *)
 From Coq Require Import List NArith Bool.
 Import ListNotations.
-From HV Require Import Model.Snow Proofs.Snow_proofs.
+From HV Require Import Model.Snow Proofs.Snow_proofs Proofs.SnowCtx_proofs.
 Local Open Scope N_scope.
 
 (* For ALL engine call sequences obeying the contract, of any length, over any forking block tree,
@@ -98,3 +98,153 @@ Example C20_lookup_after_eviction :
   | None => False
   end.
 Proof. vm_compute. split; reflexivity. Qed.
+
+(* ================================================================== verification with a P-Chain block context
+   (snow/block.go VerifyWithContext / verifyPChainCtx, snow/vm.go BuildBlockWithContext).
+
+   Vocabulary (Model/Snow.v, last section; proofs in Proofs/SnowCtx_proofs.v):
+     cop                 engine calls with contexts: CParseNew p inv ictx (bytes of a new block whose inner
+                         context is ictx), CBuild bctx (BuildBlockWithContext), CVerify h vctx
+                         (VerifyWithContext; None = nil), COp o (any call above; OVerify = Verify())
+     base co             the context-free call it corresponds to; the engine contract and the engine's
+                         bookkeeping are those of [base co] (the engine may pass any context)
+     cstep / cerun       the model with contexts: state = (state of the context-free model, table of inner
+                         contexts); [verify_ctx] follows verifyWithContext line by line
+     project             the context-free call sequence of a run: verify calls refused for their context
+                         are erased, every other call is mapped to its base. *)
+
+(* Simulation: every context-aware run is a run of the context-free model on the projected calls, with
+   the same final VM state, the same engine bookkeeping and the same callback/notification trace -
+   a verify call refused for its context is a stutter step. *)
+Theorem C20_ctx_simulation : forall c Q cops st tbl es cs' es' tr,
+  cerun c Q (st, tbl) es cops = Some (cs', es', tr) ->
+  erun c Q st es (project c (st, tbl) cops) = Some (fst cs', es', tr).
+Proof. exact cerun_project. Qed.
+Print Assumptions C20_ctx_simulation.
+
+(* C20_lifecycle for call sequences with contexts, of any length, any contexts (matching, missing,
+   superfluous, different heights), on parsed and on built blocks, with any retries. *)
+Theorem C20_lifecycle_ctx : forall c Q cops cs es tr,
+  c_ready c = true -> 1 <= c_W c -> no_sync (map base cops) = true ->
+  cerun c Q (init_cstate c) (init_estate c) cops = Some (cs, es, tr) ->
+  let T := init_events c ++ tr in
+  verify_parents_ok es [0] T = true /\
+  (exists pending, e_acc es = accepts T ++ pending /\ lenN pending = e_pending es) /\
+  chain_from es 0 (e_acc es) = true /\ NoDup (e_acc es) /\
+  (forall b, In b (e_acc es) -> ~ In b (e_rej es)) /\
+  naccepted T = 0 :: accepts T /\ nrejected T = e_rej es /\ nverified T = verified_parsed es.
+Proof. exact lifecycle_props_ctx. Qed.
+Print Assumptions C20_lifecycle_ctx.
+
+Theorem C20_lifecycle_ctx_exec : forall c Q cops cs es tr,
+  c_ready c = true -> 1 <= c_W c -> no_sync (map base cops) = true ->
+  cerun c Q (init_cstate c) (init_estate c) cops = Some (cs, es, tr) ->
+  lifecycle_b (init_events c ++ tr) es = true.
+Proof. exact lifecycle_ctx. Qed.
+Print Assumptions C20_lifecycle_ctx_exec.
+
+Theorem C20_lookup_ctx : forall c Q cops cs es tr co,
+  c_ready c = true -> 1 <= c_W c -> no_sync (map base cops) = true ->
+  cerun c Q (init_cstate c) (init_estate c) cops = Some (cs, es, tr) ->
+  lookup_ok es (base co) (snd (fst (cstep c cs co))) = true.
+Proof. exact lookup_ctx. Qed.
+Print Assumptions C20_lookup_ctx.
+
+(* Notifications match decisions call by call ([notif_ok], [notifs_ok]: the predicate Check/C20_check.v
+   evaluates on the implementation's answers): during each engine call the verified (rejected)
+   notifications are exactly the verify (reject) decisions the engine records for that call: one
+   verified notification for a successful Verify of a block the node did not build, one rejected
+   notification for a Reject, and none during any other call - in particular none during a call that
+   returned an error, such as a Verify refused for its context. *)
+Theorem C20_notifications_ctx : forall c Q cops cs es tr,
+  c_ready c = true -> 1 <= c_W c -> no_sync (map base cops) = true ->
+  cerun c Q (init_cstate c) (init_estate c) cops = Some (cs, es, tr) ->
+  notifs_ok (init_estate c) (map base cops) (crun_obs c (init_cstate c) cops) = true.
+Proof. exact notifs_ctx. Qed.
+Print Assumptions C20_notifications_ctx.
+
+(* the same for one more call after any run *)
+Theorem C20_notification_step_ctx : forall c Q cops cs es tr co,
+  c_ready c = true -> 1 <= c_W c -> no_sync (map base cops) = true ->
+  cerun c Q (init_cstate c) (init_estate c) cops = Some (cs, es, tr) ->
+  sync_op (base co) = false -> eguard Q es (base co) = true ->
+  notif_ok es (base co) (snd (fst (cstep c cs co))) (snd (cstep c cs co)) = true.
+Proof. exact notif_ctx. Qed.
+Print Assumptions C20_notification_step_ctx.
+
+(* The context check seen from the engine ([ctxs_ok], evaluated by Check/C20_check.v with the engine's own
+   record of the inner contexts): in normal operation every verify call whose context differs from
+   the inner context of the block is answered with an error and no chain callback or notification
+   happens during the call; a call whose context matches is never refused for its context. *)
+Theorem C20_ctx_check : forall c Q cops cs es tr,
+  c_ready c = true -> 1 <= c_W c -> no_sync (map base cops) = true ->
+  cerun c Q (init_cstate c) (init_estate c) cops = Some (cs, es, tr) ->
+  ctxs_ok (init_estate c) [] cops (crun_obs c (init_cstate c) cops) = true.
+Proof. exact ctxs_ctx. Qed.
+Print Assumptions C20_ctx_check.
+
+(* In ANY state of the VM (reachable or not, ready or not): a verify call that returns the
+   context-mismatch error has made no callback and no notification and has changed nothing: the
+   block object is still unverified and was not entered into the processing set. *)
+Theorem C20_ctx_mismatch_silent : forall c cs co cs' evs,
+  cstep c cs co = (cs', RErr eCtxMismatch, evs) -> vcall co <> None -> cs' = cs /\ evs = [].
+Proof. exact mismatch_silent. Qed.
+Print Assumptions C20_ctx_mismatch_silent.
+
+(* In any ready state: a verify call whose context differs from the block's inner context (nil vs
+   non-nil, or different heights; parsed or locally built block) fails, silently, leaving the state as
+   it was. *)
+Theorem C20_ctx_mismatch_rejected : forall c st tbl co h v ob,
+  vcall co = Some (h, v) -> s_ready st = true -> nthN (s_objs st) h = Some ob ->
+  ctx_eqb v (lookup (o_id ob) tbl) = false ->
+  exists e, cstep c (st, tbl) co = ((st, tbl), RErr e, []).
+Proof. exact mismatch_rejected. Qed.
+Print Assumptions C20_ctx_mismatch_rejected.
+
+(* With a matching context - and with any context while the VM is in dynamic state sync, where the
+   Go code does not look at it - VerifyWithContext is exactly Verify() of the context-free model. *)
+Theorem C20_ctx_match_is_verify : forall c st tbl co h v,
+  vcall co = Some (h, v) ->
+  (s_ready st = false \/ forall ob, nthN (s_objs st) h = Some ob -> ctx_eqb v (lookup (o_id ob) tbl) = true) ->
+  cstep c (st, tbl) co = (let '(st', r, evs) := step c st (OVerify h) in ((st', tbl), r, evs)).
+Proof. exact match_is_verify. Qed.
+Print Assumptions C20_ctx_match_is_verify.
+
+(* Retry: after a verify call refused for its context, any next call behaves as if the refused call
+   had never been made; so (with C20_ctx_match_is_verify) a retry with the right context is a first
+   verification: VerifyBlock runs once and the verified notification is sent once. *)
+Theorem C20_ctx_retry : forall c cs co1 co2 cs1 evs1,
+  vcall co1 <> None -> cstep c cs co1 = (cs1, RErr eCtxMismatch, evs1) ->
+  cstep c cs1 co2 = cstep c cs co2.
+Proof. exact retry_after_mismatch. Qed.
+Print Assumptions C20_ctx_retry.
+
+(* ---- non-vacuity: runs with contexts: parsed block with inner context 5 verified with Verify() (refused),
+   with height 4 (refused), then with height 5 (verified, notified once); a block without context verified
+   with a context (refused) while its sibling is verified and accepted; BuildBlockWithContext(2) verified
+   with nil (refused) then with 2 *)
+Example C20_ctx_engine_ok_example :
+  let c := mkCfg 2 2 true in
+  let cops := [CParseNew 0 false (Some 5); COp (OVerify 1); CVerify 1 (Some 4); CVerify 1 (Some 5);
+               COp (OParseNew 0 false); CVerify 2 (Some 3); COp (OSetPref 1); CBuild (Some 2); CVerify 3 None;
+               CVerify 3 (Some 2); COp (OAccept 1); COp OProcess; COp (OAccept 3); COp OProcess; COp (OGetBlock 2)] in
+  cengine_ok c 1 cops = true /\ no_sync (map base cops) = true /\
+  project c (init_cstate c) cops =
+    [OParseNew 0 false; OVerify 1; OParseNew 0 false; OSetPref 1; OBuild; OVerify 3; OAccept 1; OProcess;
+     OAccept 3; OProcess; OGetBlock 2] /\
+  map fst (crun_obs c (init_cstate c) cops) =
+    [RBlk (BH 1) 1 false false; RErr eCtxMismatch; RErr eCtxMismatch; RUnit;
+     RBlk (BH 2) 2 false false; RErr eCtxMismatch; RUnit; RBlk (BH 3) 3 true false; RErr eCtxMismatch;
+     RUnit; RUnit; RUnit; RUnit; RUnit; RErr eNotFound] /\
+  nverified (concat (map snd (crun_obs c (init_cstate c) cops))) = [1].
+Proof. vm_compute. repeat split; reflexivity. Qed.
+
+Example C20_ctx_mismatch_example :
+  let c := mkCfg 2 2 true in
+  match cerun c 1 (init_cstate c) (init_estate c) [CParseNew 0 false (Some 5)] with
+  | Some (cs, _, _) => cstep c cs (CVerify 1 (Some 4)) = (cs, RErr eCtxMismatch, [])
+                       /\ cstep c cs (COp (OVerify 1)) = (cs, RErr eCtxMismatch, [])
+                       /\ snd (cstep c cs (CVerify 1 (Some 5))) = [EVerify 0 1 true; NVerified 1]
+  | None => False
+  end.
+Proof. vm_compute. repeat split; reflexivity. Qed.
